@@ -48,6 +48,11 @@ CHECKS = {
    note=CORE_NOTE + "; limits 2 messages per mailbox / UID below 5; the UID limit is exclusive as implemented; the mailbox-count limit (CREATE with implicit parents) is checked in the namespace module; the check-then-insert race of two concurrent APPENDs is not covered by gated replay",
    technique="TLA+ spec with limit constants + TLC; gated replay on a server configured with the same limits; per-step database comparison", design="DESIGN.md section 5 C17"),
 
+ "C19": dict(level="model_checking",
+   text="GluonLocks.tla: program-counter machines of gluon's goroutines (accept loop, serve, per-session loop / reader / handler / queue pump, per-user update loop and forwarder, Close and RemoveUser) over every lock, wait group and channel they share; TLC checks deadlock freedom, LockOrderCode, OnlyOwner, StatesCounted, NoUseAfterDbClose, DbClosedMeansNoStates and, under weak fairness, CloseReturns / RemoveUserReturns / EveryCommandCompletes / NothingLeftEventually exhaustively on bounded configurations; as-code and seeded configurations must end with their named violation (non-vacuity). Binding: a stress driver runs concurrent sessions, connector updates, disconnects, RemoveUser and Close against a real server built with the verif hooks; every round's recording (lock acquire/release, wait-group, channel, goroutine lifecycle, snapshot touches) is validated by TLC as a behaviour of GluonLocks (GluonLocksTrace.tla) with the invariants evaluated on it; watchdogs on every client call and on Close/RemoveUser and a goroutine dump after Close judge hangs and leaks",
+   note="schedules of the real server are sampled (seeded stress rounds), the model is exhaustive only within its bounds (one session at full step granularity, two/three sessions with coarse critical sections); data races proper are reported by an optional go test -race run of the same stress scenario (thorough) and are outside what the specification decides; FETCH worker goroutines and the event publisher are projected away; one known finding (removeState peeks into other sessions' snapshots)",
+   technique="TLA+ spec of goroutines/locks/wait groups/channels + TLC (safety, deadlock, liveness) + TLC trace validation of recordings from the hooked real server + watchdogs", design="DESIGN.md section 5 C19"),
+
  "C09": dict(level="model_checking",
    text="GluonStore.tla has three layers: KV semantics (exhaustive, every transition replayed on the real on-disk store with reply and full state compared), file layer (content class x 13 corruption classes; Get must return the stored bytes or an error), and the per-ID RW lock table with multi-step Set (ReadersSeeCompleteValue, MutualExclusion, deadlock freedom; non-vacuity cfgs that must fail); goroutine histories recorded from the real WriteControlledStore are validated against the spec by TLC trace validation",
    note="content classes are instantiated around the 256 KiB block size of the compressed stream; cipher/compression fidelity inside a class is sampled (seeded); detection of lock-table races is probabilistic per run (thorough runs more rounds); two format-level weaknesses are known findings",
